@@ -99,6 +99,13 @@ inline void add_stmt(z_basic_block_t &bb, const vj::Value &st, const VarTab &vt)
     bb.bool_assert(X("x"), crab::cfg::debug_info(st["id"].i()));
   } else if (op == "bselect") {
     bb.bool_select(X("x"), X("c"), X("y"), X("z"));
+  } else if (op == "cast") {
+    const std::string &f = st["f"].str();
+    if (f == "zext") bb.zext(X("y"), X("x"));
+    else if (f == "sext") bb.sext(X("y"), X("x"));
+    else bb.truncate(X("y"), X("x"));
+  } else if (op == "callx") { // external function: the intra-procedural transformer havocs the outputs
+    bb.callsite("ext_fn", var_vec(st["lhs"], vt), var_vec(st["args"], vt));
   } else if (op == "call") {
     bb.callsite(st["fn"].str(), var_vec(st["lhs"], vt), var_vec(st["args"], vt));
   } else if (op == "ainit") {
